@@ -318,6 +318,8 @@ def ann(tx, env, spelling="typing"):
     spelling: how unions are written at this level: 'typing' (typing.Union), 'pipe' (a | b),
     'tuple' ((a, b))."""
     if isinstance(tx, str):
+        if tx == "Any":
+            return typing.Any      # only as an argument of a *passed* generic (C14), never in an annotation
         return env.cls(tx)
     h, *a = tx
     if h == "U":
